@@ -1,4 +1,5 @@
 import T4V.Model.Comp
+import T4V.Model.Composition
 import T4V.Spec.Comp
 import Mathlib.Tactic.FieldSimp
 import Mathlib.Tactic.Ring
@@ -85,5 +86,287 @@ theorem isotope_name (z a : Nat) (sym : String) (h : elementSymbol? z = some sym
 example : elementSymbol? 92 = some "U" := by decide
 example : elementSymbol? 8 = some "O" := by decide
 example : elementSymbols.length = 118 := by decide
+
+/-! ### the pipeline model (`Model/Composition.lean`): cards → pairs → names and amounts → compositions -/
+open T4V.CM
+
+/-- an entry of a material card as the manual describes it: a keyword entry `key=value`, or a ZAID and its fraction -/
+inductive Entry
+  | kw (k : List Char)
+  | pair (z f : List Char)
+
+def Entry.tokens : Entry → List (List Char)
+  | .kw k => [k]
+  | .pair z f => [z, f]
+
+def Entry.pair? : Entry → Option (List Char × List Char)
+  | .kw _ => none
+  | .pair z f => some (beforeDot z, f)
+
+/-- **the composition lists exactly the card's (ZAID, fraction) pairs in order; keyword entries, wherever they stand,
+are ignored and the library suffix is dropped** -/
+theorem keyword_entries_ignored : ∀ (es : List Entry),
+    (∀ k, Entry.kw k ∈ es → k.contains '=' = true) → (∀ z f, Entry.pair z f ∈ es → z.contains '=' = false) →
+    pairs (es.flatMap Entry.tokens) = .ok (es.filterMap Entry.pair?)
+  | [], _, _ => rfl
+  | .kw k :: es, hk, hz => by
+    have ih := keyword_entries_ignored es (fun k' h => hk k' (List.mem_cons_of_mem _ h)) (fun z f h => hz z f (List.mem_cons_of_mem _ h))
+    have hkk := hk k List.mem_cons_self
+    simp only [List.flatMap_cons, Entry.tokens, List.cons_append, List.nil_append, List.filterMap_cons, Entry.pair?]
+    cases hrest : es.flatMap Entry.tokens with
+    | nil =>
+      rw [hrest] at ih
+      simp only [pairs, hkk, if_true]
+      simpa [pairs] using ih
+    | cons t ts =>
+      rw [hrest] at ih
+      simp only [pairs, hkk, if_true]
+      exact ih
+  | .pair z f :: es, hk, hz => by
+    have ih := keyword_entries_ignored es (fun k' h => hk k' (List.mem_cons_of_mem _ h)) (fun z f h => hz z f (List.mem_cons_of_mem _ h))
+    have hzz := hz z f List.mem_cons_self
+    simp only [List.flatMap_cons, Entry.tokens, List.cons_append, List.nil_append, List.filterMap_cons, Entry.pair?]
+    simp only [pairs, hzz, Bool.false_eq_true, if_false, ih]
+
+theorem digitsNat_append' (a b : List Char) : digitsNat (a ++ b) = digitsNat a * 10 ^ b.length + digitsNat b := by
+  unfold digitsNat
+  rw [List.foldl_append]
+  generalize List.foldl (fun a d => a * 10 + (d.toNat - '0'.toNat)) 0 a = n
+  induction b generalizing n with
+  | nil => simp
+  | cons c r ih =>
+    simp only [List.foldl_cons, List.length_cons]
+    rw [ih, ih (0 * 10 + (c.toNat - '0'.toNat))]
+    simp only [Nat.zero_mul, Nat.zero_add, Nat.pow_succ]
+    rw [Nat.add_mul, Nat.add_assoc]
+    congr 1
+    rw [Nat.mul_assoc, Nat.mul_comm 10]
+
+theorem digit_val (c : Char) (h : isDig c = true) : c.toNat - '0'.toNat ≤ 9 := by
+  simp only [isDig, Char.isDigit, Bool.and_eq_true, decide_eq_true_eq] at h
+  have h2 : c.toNat ≤ 57 := UInt32.le_iff_toNat_le.mp h.2
+  have h0 : '0'.toNat = 48 := rfl
+  omega
+
+theorem foldl_digits_lt : ∀ (l : List Char) (n : Nat), (∀ c ∈ l, isDig c = true) →
+    l.foldl (fun a d => a * 10 + (d.toNat - '0'.toNat)) n < (n + 1) * 10 ^ l.length
+  | [], n, _ => by simp
+  | c :: r, n, h => by
+    have hd := digit_val c (h c List.mem_cons_self)
+    have ih := foldl_digits_lt r (n * 10 + (c.toNat - '0'.toNat)) (fun x hx => h x (List.mem_cons_of_mem _ hx))
+    simp only [List.foldl_cons, List.length_cons, Nat.pow_succ]
+    have : (n * 10 + (c.toNat - '0'.toNat) + 1) * 10 ^ r.length ≤ (n + 1) * (10 ^ r.length * 10) := by
+      rw [Nat.mul_comm (10 ^ r.length) 10, ← Nat.mul_assoc]
+      apply Nat.mul_le_mul_right
+      omega
+    omega
+
+theorem digitsNat_lt (l : List Char) (h : ∀ c ∈ l, isDig c = true) : digitsNat l < 10 ^ l.length := by
+  have := foldl_digits_lt l 0 h
+  simpa [digitsNat] using this
+
+theorem pyInt_spec (s : List Char) (n : Nat) (h : pyInt? s = some n) : s ≠ [] ∧ (∀ c ∈ s, isDig c = true) ∧ n = digitsNat s := by
+  unfold pyInt? at h
+  split at h
+  · simp at h
+  · rename_i hc
+    simp only [Option.some.injEq] at h
+    simp only [Bool.or_eq_true, Bool.not_eq_eq_eq_not, Bool.not_true, not_or, Bool.not_eq_true] at hc
+    refine ⟨by intro he; simp [he] at hc, ?_, h.symm⟩
+    have := hc.2
+    simpa using this
+
+/-- **a ZAID is 1000·Z + A** with `A < 1000` and `Z` an element (1 … 118); what follows a point (the library suffix)
+plays no part -/
+theorem zaid_decomposition (zaid : List Char) (z a : Nat) (h : isoParts zaid = .ok (z, a)) :
+    digitsNat (beforeDot zaid) = 1000 * z + a ∧ a < 1000 ∧ 1 ≤ z ∧ z ≤ 118 := by
+  unfold isoParts at h
+  simp only at h
+  split at h
+  · simp at h
+  · rename_i a' ha
+    split at h
+    · simp at h
+    · rename_i z' hz
+      split at h
+      · simp at h
+      · rename_i hr
+        simp only [Except.ok.injEq, Prod.mk.injEq] at h
+        obtain ⟨rfl, rfl⟩ := h
+        obtain ⟨hne_a, hda, rfl⟩ := pyInt_spec _ _ ha
+        obtain ⟨hne_z, hdz, rfl⟩ := pyInt_spec _ _ hz
+        have hlen : 4 ≤ (beforeDot zaid).length := by
+          by_contra hl
+          apply hne_z
+          have : (beforeDot zaid).length - 3 = 0 := by omega
+          rw [this]; rfl
+        have hdl : (List.drop ((beforeDot zaid).length - 3) (beforeDot zaid)).length = 3 := by
+          rw [List.length_drop]; omega
+        have hsplit := digitsNat_append' (List.take ((beforeDot zaid).length - 3) (beforeDot zaid))
+          (List.drop ((beforeDot zaid).length - 3) (beforeDot zaid))
+        rw [List.take_append_drop, hdl] at hsplit
+        have hlt := digitsNat_lt _ hda
+        rw [hdl] at hlt
+        simp only [Bool.or_eq_true, beq_iff_eq, decide_eq_true_eq, not_or, Nat.not_lt] at hr
+        refine ⟨by rw [hsplit]; omega, by omega, by omega, hr.2⟩
+
+/-- mass number 000 designates the natural element -/
+theorem natural_element_name (z : Nat) : isoName z 0 = symbols.getD (z - 1) "?" ++ "-NAT" := rfl
+
+theorem isotope_name_mass (z a : Nat) (ha : a ≠ 0) : isoName z a = symbols.getD (z - 1) "?" ++ toString a := by
+  simp [isoName, ha]
+
+/-- the model's table of symbols is the reference table -/
+theorem symbols_are_the_reference_table : CM.symbols = elementSymbols := rfl
+
+theorem convLoop_spec (pos : Bool) : ∀ (ps : List (List Char × List Char)) (ns : List (String × List Char)),
+    convLoop pos ps = .ok ns →
+      (∀ p ∈ ps, (!isNeg p.2) = pos) ∧
+      List.Forall₂ (fun p iso => ∃ z a, isoParts p.1 = .ok (z, a) ∧ iso = (isoName z a, normalizeFloat (strFabs p.2))) ps ns
+  | [], ns, h => by
+    simp only [convLoop, Except.ok.injEq] at h; subst h
+    exact ⟨by intro p hp; simp at hp, List.Forall₂.nil⟩
+  | (zaid, f) :: r, ns, h => by
+    unfold convLoop at h
+    split at h
+    · simp at h
+    · rename_i hs
+      split at h
+      · simp at h
+      · rename_i z a hz
+        split at h
+        · simp at h
+        · split at h
+          · simp at h
+          · rename_i ns' hr
+            simp only [Except.ok.injEq] at h; subst h
+            obtain ⟨ih1, ih2⟩ := convLoop_spec pos r ns' hr
+            refine ⟨?_, List.Forall₂.cons ⟨z, a, hz, rfl⟩ ih2⟩
+            intro p hp
+            rcases List.mem_cons.mp hp with rfl | hp'
+            · cases hf : isNeg f <;> cases pos <;> simp_all
+            · exact ih1 p hp'
+
+/-- **cards mixing signs are rejected, and the fractions are flagged as atom fractions exactly when the entries are
+positive**: whenever a card is converted, every one of its entries has the sign the flag says -/
+theorem signs_agree_with_flag (ps : List (List Char × List Char)) (ab : Abund) (h : convCard ps = .ok ab) :
+    ∀ p ∈ ps, (!isNeg p.2) = ab.atomFracs := by
+  unfold convCard at h
+  split at h
+  · intro p hp; simp at hp
+  · split at h
+    · simp at h
+    · rename_i ns hl
+      simp only [Except.ok.injEq] at h; subst h
+      exact (convLoop_spec _ _ ns hl).1
+
+theorem mixed_signs_rejected (ps : List (List Char × List Char)) (p q : List Char × List Char) (hp : p ∈ ps) (hq : q ∈ ps)
+    (hne : isNeg p.2 ≠ isNeg q.2) : ∃ e, convCard ps = .error e := by
+  cases h : convCard ps with
+  | error e => exact ⟨e, rfl⟩
+  | ok ab =>
+    have h1 := signs_agree_with_flag ps ab h p hp
+    have h2 := signs_agree_with_flag ps ab h q hq
+    exfalso; apply hne
+    have : (!isNeg p.2) = !isNeg q.2 := h1.trans h2.symm
+    simpa using this
+
+/-- **the nuclides of the card in order, each named after its ZAID, each with the absolute value of its fraction
+(spelled as a plain number)** -/
+theorem nuclides_in_card_order_model (ps : List (List Char × List Char)) (ab : Abund) (h : convCard ps = .ok ab) :
+    List.Forall₂ (fun p iso => ∃ z a, isoParts p.1 = .ok (z, a) ∧ iso = (isoName z a, normalizeFloat (strFabs p.2)))
+      ps ab.isotopes := by
+  unfold convCard at h
+  split at h
+  · simp only [Except.ok.injEq] at h; subst h; exact List.Forall₂.nil
+  · split at h
+    · simp at h
+    · rename_i ns hl
+      simp only [Except.ok.injEq] at h; subst h
+      exact (convLoop_spec _ _ ns hl).2
+
+/-- **a mass density takes the card's fractions as they are** (with the flag of the card); an atom density takes the
+same nuclides in the same order (their amounts are the rescaled concentrations), and none when the card gives mass
+fractions; every composition carries the name of its material -/
+theorem compositions_follow_the_card (key : Nat) (ab : Abund) : ∀ (cells : List CCell) (seen : List (List Char)) (cs : List Comp),
+    compsOf key ab cells seen = .ok cs → ∀ c ∈ cs, c.name = "m" ++ toString key ∧
+      (c.kind = "DENSITY" → c.isotopes = ab.isotopes ∧ c.nbAtom = ab.atomFracs) ∧
+      (c.kind = "POINT_WISE" → c.isotopes.map (·.1) = if ab.atomFracs then ab.isotopes.map (·.1) else [])
+  | [], seen, cs, h => by
+    simp only [compsOf, Except.ok.injEq] at h; subst h; intro c hc; simp at hc
+  | cell :: r, seen, cs, h => by
+    unfold compsOf at h
+    split at h
+    · exact compositions_follow_the_card key ab r seen cs h
+    · split at h
+      · simp at h
+      · rename_i neg hneg
+        simp only at h
+        split at h
+        · simp at h
+        · split at h
+          · simp at h
+          · split at h
+            · simp at h
+            · rename_i cs' hr
+              simp only [Except.ok.injEq] at h; subst h
+              intro c hc
+              rcases List.mem_cons.mp hc with rfl | hc'
+              · by_cases hn : neg = true
+                · simp [hn]
+                · by_cases haf : ab.atomFracs = true
+                  · simp [hn, haf, Function.comp_def]
+                  · simp [hn, haf]
+              · exact compositions_follow_the_card key ab r (cell.density :: seen) cs' hr c hc'
+
+/-- **every converted cell finds its composition**: a live cell that uses the material gets a composition of that
+material with the cell's density literal (normalised) — the name GEOMCOMP files its volumes under -/
+theorem every_used_density_has_a_composition (key : Nat) (ab : Abund) : ∀ (cells : List CCell) (seen : List (List Char)) (cs : List Comp),
+    compsOf key ab cells seen = .ok cs → ∀ cell ∈ cells, cell.live = true → cell.mat = key → cell.density ∉ seen →
+      ∃ c ∈ cs, c.name = "m" ++ toString key ∧ c.density = normalizeFloat cell.density
+  | [], seen, cs, _, cell, hc, _, _, _ => by simp at hc
+  | c0 :: r, seen, cs, h, cell, hc, hl, hm, hs => by
+    unfold compsOf at h
+    split at h
+    · rename_i hskip
+      rcases List.mem_cons.mp hc with rfl | hc'
+      · exfalso
+        simp only [Bool.or_eq_true, Bool.not_eq_eq_eq_not, Bool.not_true, bne_iff_ne, ne_eq,
+          List.contains_iff_mem] at hskip
+        rcases hskip with (h1 | h1) | h1
+        · simp [hl] at h1
+        · exact h1 hm
+        · exact hs (by simpa using h1)
+      · exact every_used_density_has_a_composition key ab r seen cs h cell hc' hl hm hs
+    · split at h
+      · simp at h
+      · rename_i neg hneg
+        simp only at h
+        split at h
+        · simp at h
+        · split at h
+          · simp at h
+          · split at h
+            · simp at h
+            · rename_i cs' hr
+              simp only [Except.ok.injEq] at h; subst h
+              rcases List.mem_cons.mp hc with rfl | hc'
+              · refine ⟨_, List.mem_cons_self, ?_⟩
+                by_cases hn : neg = true <;> simp [hn]
+              · by_cases hd : cell.density = c0.density
+                · refine ⟨_, List.mem_cons_self, ?_⟩
+                  by_cases hn : neg = true <;> simp [hn, hd]
+                · obtain ⟨c, hcm, hp⟩ := every_used_density_has_a_composition key ab r (c0.density :: seen) cs' hr cell hc' hl hm
+                    (by simp [hd, hs])
+                  exact ⟨c, List.mem_cons_of_mem _ hcm, hp⟩
+
+example : isoParts "92235.70c".toList = .ok (92, 235) := by decide
+example : isoParts "1001".toList = .ok (1, 1) := by decide
+example : isoParts "26000".toList = .ok (26, 0) := by decide
+example : isoParts "119000".toList = .error .attr := by decide
+example : isoParts "235".toList = .error .value := by decide
+example : isoName 92 235 = "U235" := by decide
+example : isoName 26 0 = "FE-NAT" := by decide
+example : convCard [("1001".toList, "2".toList), ("8016".toList, "-1".toList)] = .error .mixed := by decide
 
 end T4V.C10
